@@ -480,6 +480,23 @@ let cmd_cfg (arg : string) : string =
      | Refused -> "REFUSED")
   | _ -> failwith "cfg args"
 
+(* cfgvalid <port> <iface_empty 0|1> <seedlen> <kms 0|1> <batch> <fault> <workers> <client_stats 0|1> <dir -|exists,isdir,readonly> <addr_parses 0|1> *)
+let cmd_cfgvalid (arg : string) : string =
+  match String.split_on_char ' ' (String.trim arg) with
+  | [port; ie; sl; kms; b; f; w; cs; dir; ap] ->
+    let bo s = (s = "1") in
+    let d = if dir = "-" then None else
+        (match String.split_on_char ',' dir with
+         | [e; i; r] -> Some { d_exists = bo e; d_is_dir = bo i; d_readonly = bo r }
+         | _ -> failwith "dir") in
+    let c = { s_port = z_of_string port; s_interface_empty = bo ie; s_seed_len = z_of_string sl;
+              s_kms = (if kms = "1" then KmsEnabled else KmsPlaintext); s_batch = z_of_string b;
+              s_fault = z_of_string f; s_workers = z_of_string w; s_client_stats = bo cs; s_pdir = d;
+              s_addr_parses = bo ap } in
+    (match is_valid_config c with
+     | VOk true -> "VALID" | VOk false -> "INVALID" | VPanic -> "PANIC")
+  | _ -> failwith "cfgvalid args"
+
 (* ---------- client ---------- *)
 let parse_assoc (s : string) : (string * bool) list =
   if s = "-" then [] else
@@ -510,6 +527,34 @@ let cmd_client (arg : string) : string =
      | Err e -> "ERR " ^ render_err e ^ " Q=" ^ q
      | Panic n -> Printf.sprintf "PANIC site=%d Q=%s" (int_of_nat n) q)
   | _ -> failwith "client args"
+
+(* clientrun <ver> <pk|-> <points|-> <verifies|-> <nonce:request:dgram|nonce:request:T>;...
+   the whole -n run (Model/Client.v client_run); same two-pass oracle protocol as `client` *)
+let cmd_clientrun (arg : string) : string =
+  match String.split_on_char ' ' (String.trim arg) with
+  | [v; pk; points; verifies; xs] ->
+    let recording = (points = "-" && verifies = "-") in
+    let pts = parse_assoc points and vfs = parse_assoc verifies in
+    let queries = ref [] in
+    let edp pkb = if recording then true else (try List.assoc (hex_of_bytes pkb) pts with Not_found -> false) in
+    let edv pkb m sg =
+      let key = hex_of_bytes pkb ^ "." ^ hex_of_bytes m ^ "." ^ hex_of_bytes sg in
+      queries := key :: !queries;
+      if recording then true else (try List.assoc key vfs with Not_found -> false) in
+    let pko = if pk = "-" then None else Some (bytes_of_hex pk) in
+    let exs = List.map (fun x ->
+        match String.split_on_char ':' x with
+        | [n; rq; d] -> { ex_nonce = bytes_of_hex n; ex_request = bytes_of_hex rq;
+                          ex_arrival = (if d = "T" then TimedOut else Arrived (bytes_of_hex d)) }
+        | _ -> failwith "clientrun exchange") (split_on ';' xs) in
+    let (outs, e) = client_run sha512 edv edp (version_of v) pko exs in
+    let q = String.concat "," (List.rev !queries) in
+    let os = String.concat "|" (List.map (fun o ->
+        Printf.sprintf "%d,%s,%s,%s,%s" (if o.o_verified then 1 else 0) (string_of_n o.o_secs)
+          (string_of_n o.o_nsecs) (string_of_n o.o_radius) (string_of_n o.o_index)) outs) in
+    let es = (match e with RunDone -> "done" | RunTimeout -> "timeout" | RunPanic n -> Printf.sprintf "panic%d" (int_of_nat n)) in
+    Printf.sprintf "RUN end=%s exit0=%d outs=%s Q=%s" es (if exit_zero e then 1 else 0) os q
+  | _ -> failwith "clientrun args"
 
 (* mkreq <ver> <nonce> <pk|-> *)
 let cmd_mkreq (arg : string) : string =
@@ -594,7 +639,9 @@ let dispatch (line : string) : string =
   | "srep" -> cmd_srep rest
   | "serve" -> cmd_serve rest
   | "signer" -> cmd_signer rest
+  | "cfgvalid" -> cmd_cfgvalid rest
   | "client" -> cmd_client rest
+  | "clientrun" -> cmd_clientrun rest
   | "mkreq" -> cmd_mkreq rest
   | "cfg" -> cmd_cfg rest
   | "ltk" -> cmd_ltk rest
